@@ -867,3 +867,20 @@ def ser_method_name(f):
             st = st[4:]
         return _PRIMITIVE_SERIALIZE.get(st, "serialize")
     return f.get("name")
+
+
+def chunk_readers(facts):
+    """The capturing reader under the YAML parser: `impl io::Read` bodies whose `read` appends what it read to a Vec
+    (extend_from_slice). When more than one reader in the crate does that (a detection-time capture reader written the
+    same way), the one that belongs to the chunker — same source file as the chunker's `next` — is meant."""
+    lib = facts.lib
+    crs = [b for b in lib.bodies if b.raw.get("impl_trait") == "std::io::Read" and b.name == "read" and any((fn_of(t) or {}).get("name") == "extend_from_slice" for _, t in b.calls())]
+    if len(crs) > 1:
+        try:
+            home = chunker(facts)["next"].file
+        except Exception:
+            home = None
+        near = [b for b in crs if b.file == home]
+        if len(near) >= 1:
+            crs = near
+    return crs
